@@ -177,14 +177,25 @@ pub async fn narrow_search_space<T: UtxoStore>(
 ) -> Result<SearchSpace, Error> {
     let mut search_space = SearchSpace::new();
 
-    let parent_subset = if let Some(address) = &criteria.address {
+    let by_address = if let Some(address) = &criteria.address {
         let utxos = store.narrow_refs(UtxoPattern::by_address(address)).await?;
         Subset::Specific(utxos)
     } else {
         Subset::All
     };
 
-    search_space.include_address_matches(parent_subset.clone());
+    search_space.include_address_matches(by_address.clone());
+
+    // `from` and `ref` are hard constraints: every candidate has to satisfy both, so
+    // the references narrow the parent subset instead of widening the union that
+    // `take` falls back to. Asset classes only rank candidates within that subset.
+    let parent_subset = if !criteria.refs.is_empty() {
+        search_space.add_ref_matches(criteria.refs.clone());
+        search_space.union = search_space.intersection.clone();
+        Subset::intersection(by_address, Subset::Specific(criteria.refs.clone()))
+    } else {
+        by_address
+    };
 
     if let Some(assets) = &criteria.min_amount {
         for (class, amount) in assets.iter() {
@@ -193,10 +204,6 @@ pub async fn narrow_search_space<T: UtxoStore>(
                 search_space.include_asset_class_matches(subset);
             }
         }
-    }
-
-    if !criteria.refs.is_empty() {
-        search_space.add_ref_matches(criteria.refs.clone());
     }
 
     if !search_space.is_constrained() {
